@@ -288,6 +288,37 @@ func CheckC19(e *Env) int {
 		add(graphProgram(nid(), g, 0, false), "reject", "reject", "cycle")
 		add(graphProgram(nid(), g, 0, true), "accept", "reject", "cycle-in-unreferenced-set")
 	}
+	// a set variable made ONLY of other sets (and a binding): each part is acyclic, the union
+	// is not; no injector uses it, so only check's look at set variables can notice
+	for v := 0; v < 4; v++ {
+		b := NewPB(nid(), "app")
+		store, cache, other := b.Carrier(0, "Store"), b.Carrier(0, "Cache"), b.Carrier(0, "Other")
+		var members []Ref
+		if v%2 == 0 {
+			backing := b.Iface(0, "Backing", PtrTo(store), true)
+			ns := b.Func(0, "NewStore", PtrTo(store), false, false, PtrTo(cache))
+			nc := b.Func(0, "NewCache", PtrTo(cache), false, false, backing)
+			ns.Stub, nc.Stub = true, true
+			s1, s2 := b.Set(0, "StoreSet", ItemRef(ns.ID)), b.Set(0, "CacheSet", ItemRef(nc.ID))
+			members = []Ref{SetRef(s1.ID), SetRef(s2.ID), ItemRef(b.Bind(backing, PtrTo(store)).ID)}
+		} else {
+			ns := b.Func(0, "NewStore", PtrTo(store), false, false, PtrTo(cache))
+			nc := b.Func(0, "NewCache", PtrTo(cache), false, false, PtrTo(store))
+			ns.Stub, nc.Stub = true, true
+			s1, s2 := b.Set(0, "StoreSet", ItemRef(ns.ID)), b.Set(0, "CacheSet", ItemRef(nc.ID))
+			members = []Ref{SetRef(s1.ID), SetRef(s2.ID)}
+		}
+		if v >= 2 {
+			// one more level of inclusion
+			mid := b.Set(0, "Mid", members...)
+			members = []Ref{SetRef(mid.ID)}
+		}
+		b.Set(0, "All", members...)
+		no := b.Func(0, "NewOther", other, false, false)
+		no.Stub = true
+		b.Inj("Init", other, false, false, nil, ItemRef(no.ID))
+		add(b.P, "accept", "reject", fmt.Sprintf("cycle-in-unreferenced-include-only-set/variant=%d", v))
+	}
 	for _, sh := range [][]string{{}, {"V", "V"}, {"V", "CF"}, {"V", "error", "func()"}, {"V", "func()", "error", "V"}} {
 		add(c09ShapeProgram(nid(), sh, false, false), "reject", "reject", "signature")
 		add(c09ShapeProgram(nid(), sh, true, false), "reject", "reject", "injector-signature")
